@@ -266,6 +266,11 @@ class Runtime(object):
                     o = [label]
                 elif cf == 'empty-dict':
                     o = {}
+                elif cf == 'exception-object':
+                    # an exception *object* handed on as a value (for the render side to turn into an answer): not raised
+                    o = LookupError(label)
+                elif cf == 'exception-class':
+                    o = type('NoSuchThing', (KeyError,), {})
                 else:
                     o = Marker(['ctx', fid])
             tr['made'][id(o)] = [kind, fid]
@@ -363,6 +368,16 @@ def make_callable(rt, f, role, provides=()):
 
         @clastic_decorator
         def deco(func):
+            if zlib.crc32(fid.encode()) % 2:
+                # a class-based decorator: what it returns is an object with __call__, not a function
+                class Wrapped(object):
+                    def __init__(self, inner):
+                        self.inner = inner
+
+                    def __call__(self, *a, **kw):
+                        return self.inner(*a, **kw)
+                return Wrapped(func)
+
             def wrapper(*a, **kw):
                 return func(*a, **kw)
             return wrapper
@@ -507,6 +522,17 @@ def request_path(cfg, values=None, sep='/'):
     return out
 
 
+def _late_middleware(where):
+    from clastic import Middleware
+
+    def request(next):
+        tr = probe.current_trace()
+        if tr is not None:
+            tr['events'].append(['enter', 'appended-to-the-callers-list-afterwards:' + where, {}])
+        return next()
+    return type('Late_%s' % where.replace('-', '_'), (Middleware,), {'request': staticmethod(request)})()
+
+
 def build(cfg, error_handler_factory=None, slash_mode=None):
     """Construct the configuration with the real clastic.  Function/class synthesis happens
     first (harness bugs surface here as ordinary exceptions); only clastic's own constructors
@@ -549,6 +575,9 @@ def build(cfg, error_handler_factory=None, slash_mode=None):
         via_factory = bool(route.get('render_via_factory')) and rn is not None
         r = Route(pattern_of(route), ep, 'template-name' if via_factory else rn, middlewares=route_mws, resources=route_res, **kw)
         out.route = r
+        # what the caller does with *its* list afterwards is the caller's business: the route has the middlewares it was given
+        route_mws.append(_late_middleware('route'))
+        route_res['late_resource'] = object()
         inner = None
         for k in range(len(cfg['levels']) - 1, -1, -1):
             out.stage = 'level-%d' % k
@@ -573,6 +602,7 @@ def build(cfg, error_handler_factory=None, slash_mode=None):
             if cfg.get('build_via_add'):
                 # "...or adding a route to one": the same dependency check must happen in add()
                 app_k = Application([], resources=res, middlewares=mws, error_handler=ehf(), **akw)
+                mws.append(_late_middleware('level-%d' % k))        # (the same for an application's list)
                 for entry in routes:
                     app_k.add(entry)
                 inner = app_k
